@@ -33,4 +33,6 @@ class SameID:
   def _import_tags_of_previous_group_definition(self, previous):
     for tag in previous.tagnames:
       if not self.get(tag):
+        # keep the datatype of the tag, instead of guessing it from the value
+        self.set_datatype(tag, previous.get_datatype(tag))
         self.set(tag, previous.get(tag))
